@@ -100,6 +100,7 @@ def main():
                     ignore=shutil.ignore_patterns('__pycache__'))
     shutil.copy('/verif/known_findings.json', SNAP)
     out = {}
+    dest = os.environ.get('SWEEP_OUT', '/tmp/sweep_result.json')
     with cf.ThreadPoolExecutor(int(os.environ.get("SWEEP_JOBS", "4"))) as ex:
         for tag, res in ex.map(one, jobs):
             out[tag] = res
@@ -111,6 +112,8 @@ def main():
             print('%-26s violations: %-22s undecided: %s' % (
                 tag, ','.join(hit) or '-', ','.join(und) or '-'))
             sys.stdout.flush()
+            if len(out) % 10 == 0:
+                json.dump(out, open(dest + '.part', 'w'), indent=1)
     dest = os.environ.get('SWEEP_OUT', '/tmp/sweep_result.json')
     json.dump(out, open(dest, 'w'), indent=1)
     shutil.rmtree(ROOT, ignore_errors=True)
